@@ -165,10 +165,10 @@ Lemma st_within_scope {A} sc (f : M A) : pres Rst f -> pres Rst (within_scope sc
 Global Hint Resolve st_memo_lookup st_memo_store : pres_st.
 Global Hint Extern 1 (pres Rst (within_scope _ _)) => (apply st_within_scope; go_st) : pres_st.
 Lemma st_instantiate_memo fuel :
-  (forall v b r, pres Rst (instantiate fuel v b r)) /\ (forall m k, pres Rst (memo_call fuel m k)).
+  (forall p v b r, pres Rst (instantiate fuel p v b r)) /\ (forall p m k, pres Rst (memo_call fuel p m k)).
 Proof. induction fuel as [|f [IH1 IH2]]; (split; intros; simpl; go_st). Qed.
-Lemma st_instantiate fuel v b r : pres Rst (instantiate fuel v b r). Proof. apply st_instantiate_memo. Qed.
-Lemma st_memo_call fuel m k : pres Rst (memo_call fuel m k). Proof. apply st_instantiate_memo. Qed.
+Lemma st_instantiate fuel p v b r : pres Rst (instantiate fuel p v b r). Proof. apply st_instantiate_memo. Qed.
+Lemma st_memo_call fuel p m k : pres Rst (memo_call fuel p m k). Proof. apply st_instantiate_memo. Qed.
 Global Hint Resolve st_memo_call st_instantiate : pres_st.
 Lemma st_assert_running_is_child n : pres Rst (assert_running_is_child n). Proof. prim assert_running_is_child. Qed.
 Global Hint Resolve st_assert_running_is_child : pres_st.
